@@ -349,6 +349,8 @@ func URLRequest(t *rapid.T, ss *SchemaSpec, o URLOpts) *URLReq {
 
 	if !o.Valid {
 		kinds = append(kinds, "unknown", "empty-value", "odd-name")
+	} else {
+		kinds = append(kinds, "empty-ok")
 	}
 
 	hasFilter := false
@@ -501,6 +503,19 @@ func URLRequest(t *rapid.T, ss *SchemaSpec, o URLOpts) *URLReq {
 			}
 		case "unknown":
 			r.Params = append(r.Params, QParam{rapid.SampledFrom([]string{"foo", "fields", "fields[]", "page[]", "page", "", "Sort"}).Draw(t, "unkparam"), "x"})
+		case "empty-ok":
+			// Parameters whose empty value is meaningful and accepted: no
+			// filter, no rule, no inclusion, an empty selection.
+			name := rapid.SampledFrom([]string{"filter", "sort", "include", "fields[" + resType.Name + "]"}).Draw(t, "emptyok")
+			if _, dup := r.First(name); dup || (name == "filter" && hasFilter) {
+				continue
+			}
+
+			if name == "filter" {
+				hasFilter = true
+			}
+
+			r.Params = append(r.Params, QParam{name, ""})
 		case "empty-value":
 			r.Params = append(r.Params, QParam{rapid.SampledFrom([]string{"filter", "sort", "include", "fields[" + resType.Name + "]", "page[size]"}).Draw(t, "emptyparam"), ""})
 		case "odd-name":
